@@ -244,6 +244,84 @@ func indexCases(r *sim.Rng, count int, cw *sim.CaseWriter) {
 	}
 }
 
+// capCases: within one block a committee never slashes a validator by more than the per-committee cap - also when another
+// committee's slash of the same validator comes in between (A, B, A): each committee's budget is its own. The real
+// HandleDoubleSigners (protocol version 2) is called for committee A, committee B and committee A again with fresh evidence heights;
+// the stake after every call is compared with the budgeted expectation.
+func capCases(r *sim.Rng, count int, outDir string) {
+	for c := 0; c < count; c++ {
+		g := &sim.GenesisSpec{}
+		p := fsm.DefaultParams()
+		p.Consensus.ProtocolVersion = fsm.NewProtocolVersion(0, 2)
+		p.Validator.DoubleSignSlashPercentage = r.Pick(4, 10, 10, 14)
+		p.Validator.MaxSlashPerCommittee = r.Pick(15, 15, 20, 25)
+		g.Params = p
+		for i := 0; i < 5; i++ {
+			g.Validators = append(g.Validators, sim.StdValidator(i, 1_000_000+uint64(r.Intn(1000)), 1, 2, 3))
+		}
+		n, err := sim.NewFNode(g.State(), nil)
+		if err != nil {
+			panic(err)
+		}
+		n.Enter()
+		params, _ := n.FSM.GetParamsVal()
+		v := r.Intn(5)
+		addr := crypto.NewAddress(sim.BLSKey(v).Addr)
+		stakeOf := func() uint64 {
+			val, _ := n.FSM.GetValidator(addr)
+			if val == nil {
+				return 0
+			}
+			return val.StakedAmount
+		}
+		a, b := uint64(1+r.Intn(3)), uint64(0)
+		for b = uint64(1 + r.Intn(3)); b == a; b = uint64(1 + r.Intn(3)) {
+		}
+		order := []uint64{a, b, a}
+		if r.Chance(30) {
+			order = []uint64{a, b, b, a, a}
+		}
+		taken := map[uint64]uint64{}
+		height := uint64(3)
+		for step, chain := range order {
+			before := stakeOf()
+			if before == 0 {
+				break
+			}
+			height++
+			herr := n.FSM.HandleDoubleSigners(chain, params, []*lib.DoubleSigner{{Id: sim.BLSKey(v).Pub, Heights: []uint64{height}}})
+			if herr != nil {
+				break
+			}
+			after := stakeOf()
+			pct, cap := params.DoubleSignSlashPercentage, params.MaxSlashPerCommittee
+			apply := uint64(0)
+			if taken[chain] < cap {
+				apply = pct
+				if taken[chain]+pct >= cap {
+					apply = cap - taken[chain]
+				}
+			}
+			taken[chain] += apply
+			want := before
+			if apply >= 100 {
+				want = 0
+			} else if apply > 0 {
+				want = lib.SafeMulDiv(before, 100-apply, 100)
+			}
+			if after != want {
+				sim.Direct(outDir, map[string]any{"finding": "committee-slash-cap-exceeded", "kind": "a committee's slash of a validator within one block does not follow its own budget",
+					"step": step, "committee": chain, "order": order, "stake_before": before, "stake_after": after, "expected": want, "percent": pct, "cap": cap, "taken_by_this_committee_before": taken[chain] - apply})
+				break
+			}
+		}
+		st.Cases++
+		st.Distinct++
+		st.Outcomes["cap-case"]++
+		n.Close()
+	}
+}
+
 func main() {
 	nEv := flag.Int("evidence", 150, "evidence cases")
 	nIdx := flag.Int("index", 40, "index cases")
@@ -259,6 +337,7 @@ func main() {
 	w2 := &sim.CaseWriter{OutDir: *outDir, Name: "c14idx", Imports: imp, CaseType: "ix_case", MFun: "ix_mismatches", VFun: "ix_violations", PerShard: 80}
 	indexCases(r.Fork(), *nIdx, w2)
 	w2.Close(st)
+	capCases(r.Fork(), 1+*nIdx/2, *outDir)
 	fmt.Printf("c14: %d cases; outcomes %v\n", st.Cases, st.Outcomes)
 	_ = fsm.DefaultParams
 }
